@@ -116,6 +116,12 @@ class Model(Object):
                 x._model = self
         if not hasattr(self, "name"):
             self.name = None
+        # the pickled solver only carries its feasibility tolerance
+        if (
+            getattr(self, "_solver", None) is not None
+            and getattr(self, "_tolerance", None) is not None
+        ):
+            self.tolerance = self._tolerance
 
     def __getstate__(self) -> Dict:
         """Get state for serialization.
@@ -482,6 +488,9 @@ class Model(Object):
             # Cplex has an issue with deep copies
         except Exception:  # pragma: no cover
             new._solver = copy(self.solver)  # pragma: no cover
+        # the copied solver only carries its feasibility tolerance
+        if self._tolerance is not None:
+            new.tolerance = self._tolerance
 
         # it doesn't make sense to retain the context of a copied model so
         # assign a new empty context
